@@ -39,7 +39,7 @@ ASSUMPTIONS = [
 ]
 STEP_CAP = 400000
 ISOLATION = "thread"
-P_UNGUARDED = 0.0
+P_UNGUARDED = float(__import__("os").environ.get("VERIF_UNGUARDED", "0") or 0)
 
 
 def warm():
@@ -228,13 +228,22 @@ def compare_pair(ctx, a, b, filters, plan_names, is_wt, guards=frozenset()):
                     params = {"specific_files": spec, "include_unchanged": inc, "want_unversioned": unv}
                     evaluations += 1
                     try:
-                        got = norm_inv(InterTree.get(a, b).iter_changes(inc, spec, want_unversioned=unv, require_versioned=False), b)
+                        raw = list(InterTree.get(a, b).iter_changes(inc, spec, want_unversioned=unv, require_versioned=False))
                     except Exception as e:  # noqa: BLE001
                         ctx.fail("optimised_raised", impl, "%s raised %r" % (impl, e), params)
                     try:
-                        ref = norm_inv(InterInventoryTree(a, b).iter_changes(inc, spec, want_unversioned=unv, require_versioned=False), b)
+                        raw_ref = list(InterInventoryTree(a, b).iter_changes(inc, spec, want_unversioned=unv, require_versioned=False))
                     except Exception as e:  # noqa: BLE001
                         ctx.fail("generic_raised", impl, "generic InterInventoryTree raised %r" % (e,), params)
+                    for who, lst in ((impl, raw), ("generic", raw_ref)):
+                        ids = [c.file_id for c in lst if c.file_id is not None]
+                        if len(ids) != len(set(ids)):
+                            if "bzr_filter_duplicates" in guards and who == "InterDirStateTree" and spec is not None:
+                                sim.probe("duplicate_entries")
+                            else:
+                                dup = sorted({i for i in ids if ids.count(i) > 1})
+                                ctx.fail("duplicate_entries", who, "%s reports %r more than once" % (who, dup[:4]), params)
+                    got, ref = norm_inv(raw, b), norm_inv(raw_ref, b)
                     if spec is not None and unv:
                         # unversioned entries are selected by literal path in the generic code and
                         # by related (renamed) path in the dirstate: compare inside the filter only
@@ -251,12 +260,11 @@ def compare_pair(ctx, a, b, filters, plan_names, is_wt, guards=frozenset()):
                             sim.probe("generic_half_record")
                             got = {c for c in got if not (c[0] == "v" and c[1] in broken)}
                             ref = {c for c in ref if not (c[0] == "v" and c[1] in broken)}
-                    if spec is not None and "filter_path_occupant" in guards:
-                        taken = {c[2][1]: c[1] for c in got | ref if c[0] == "v" and c[4][1]}
-                        occ = {c for c in got ^ ref if c[0] == "v" and c[2][0] in taken and taken[c[2][0]] != c[1] and not any(p is not None and T.inside(s, p) for s in spec for p in c[2])}
-                        if occ:
-                            sim.probe("filter_path_occupant")
-                            got, ref = got - occ, ref - occ
+                    if spec is not None and impl == "InterDirStateTree" and "dirstate_filter_overinclusion" in guards:
+                        more = got - ref
+                        if more and more <= full[inc, unv]:
+                            sim.probe("dirstate_filter_overinclusion")
+                            got = got - more
                     if spec is not None and inc and "filter_unchanged_parent" in guards:
                         got, ref = drop_outside(got, spec), drop_outside(ref, spec)
                     if spec is not None and inc:
